@@ -179,7 +179,24 @@ class World:
             elif k == "reduceDebt":
                 out = [D(x) for x in self.sq._reduce_debt(VK(op["vk"]), bool(op["payBounty"]))]
             elif k == "uniRemove":
-                self.uni.remove_liquidity(PI(*op["pos"]))
+                if op.get("liquidity") is None and op.get("collect", True):
+                    self.uni.remove_liquidity(PI(*op["pos"]))
+                else:                                 # part of the liquidity and / or without collecting (pool-side stream of C01)
+                    r = self.uni.remove_liquidity(PI(*op["pos"]), op.get("liquidity"), bool(op.get("collect", True)))
+                    out = [D(x) for x in r]
+            elif k == "uniAdd":                       # the strategy adds liquidity to the oSQTH/WETH pool: a new range or the range of an existing position
+                r = self.uni.add_liquidity_by_tick(int(op["lo"]), int(op["hi"]), op["base"], op["quote"])
+                out = [D(r[1]), D(r[2]), D(r[3])]
+            elif k == "uniCollect":
+                out = [D(x) for x in self.uni.collect_fee(PI(*op["pos"]), op.get("max0"), op.get("max1"))]
+            elif k == "uniAccrue":                    # what a bar's fee accrual does to a position: uncollected amounts grow (free or lent alike)
+                pos = self.uni.positions[PI(*op["pos"])]
+                pos.pending_amount0 += op["a0"]
+                pos.pending_amount1 += op["a1"]
+            elif k == "uniTransferOut":               # DIRECT call of the public method by the strategy, not through the Squeeth market
+                self.uni.transfer_position_out(PI(*op["pos"]))
+            elif k == "uniTransferIn":
+                self.uni.transfer_position_in(PI(*op["pos"]))
             elif k in ("buy", "sell"):
                 f = self.sq.buy_squeeth if k == "buy" else self.sq.sell_squeeth
                 a, b = op.get("osqth"), op.get("eth")
